@@ -259,7 +259,7 @@ pub fn finish(ctx: &Ctx) -> i32 {
     crate::engine::finish(
         ctx,
         Finish {
-            rule: "sequences of 0-200 (and, in `long-sequences`, 300-3000 over alphabets of 6 / 64 / 250 values) append / fetch_or_append operations over three value types: u8 (many repeats), f64 with NaN (unequal to itself) and a key/payload struct whose equality compares the key only (so 'first equal' is observable through the payload). Oracle: Vec model: append returns index = previous length, a token never returned before; lookup through every token ever returned yields the modelled value after every step (bitwise / payload-wise); fetch_or_append returns the token of the first stored equal value, else appends. non-trivial = sequence of >= 4 operations in which fetch_or_append found an existing value; distinct = hash of the operation log.",
+            rule: "sequences of 0-200 (and, in `long-sequences`, 300-3000 over alphabets of 6 / 64 / 250 values) append / fetch_or_append operations over three value types: u8 (many repeats), f64 with NaN (unequal to itself) and a key/payload struct whose equality compares the key only (so 'first equal' is observable through the payload). Oracle: Vec model: append returns index = previous length, a token never returned before; lookup through every token ever returned yields the modelled value after every step (bitwise / payload-wise); fetch_or_append returns the token of the first stored equal value, else appends. non-trivial = sequence of >= 4 operations in which fetch_or_append found an existing value; distinct = hash of the operation log. Added in rounds 18-19: huge-sequences (65 530 - 1 048 581 values, one case in 24 above 2^24).",
             assumptions: vec![],
             trusted_base: vec!["Vec model".into(), "proptest".into()],
         },
